@@ -67,10 +67,13 @@ def opsLsb0 : Handler := fun st toks =>
       | "borrowed" => some Serde.Input.borrowedBytes
       | "buf" => some Serde.Input.byteBuf
       | "seq" => some Serde.Input.seq
+      | "seqfail" => some Serde.Input.seq   -- the sequence breaks off with a format error half-way: see below
       | _ => none : Option (List Nat → Serde.Input))
     match bytes? with
     | none => pure (st, "panic")       -- `serialize_into` of the source slot panicked
     | some bytes =>
+    -- `seq.next_element()?` in `visit_seq` (serde.rs) hands the SeqAccess's error straight back: no value, nothing kept
+    if kind = "seqfail" then pure (st, "err") else
     let inp := mkInp bytes
     -- SPEC: the serialisation of a value decodes to an equal value (`ok`, same set)
     match Serde.visit st.dbg inp, orig with
